@@ -264,6 +264,9 @@ func (w *World) probes(r *RunResult) {
 			if o.Plan.K.NoFlusher {
 				r.Probes["response_writer_without_flush"]++
 			}
+			if o.Plan.K.HandBuiltResp {
+				r.Probes["hand_built_response_without_length"]++
+			}
 			if ex.HeldToEnd {
 				r.Probes["answer_held_until_handler_returned"]++
 			}
